@@ -31,7 +31,9 @@ CONFIGS = {
 CELLS = [("aitken", "direct"), ("nlbgs", "direct"), ("newton", "direct"), ("newton", "lbgs"), ("newton", "krylov_plain")]
 POINTS = [
     {"alpha": 4.0, "v": 100.0, "load_factor": 1.3, "wing.twist_cp": [2.0, 3.0, 1.0]},
-    {"alpha": 1.0, "v": 130.0, "load_factor": 2.5, "wing.twist_cp": [0.0, 1.0, 4.0]},
+    # P1 differs from P0 in the flight condition ONLY (same geometry and structure): a value cached on the structure alone
+    # would survive the transition P0 -> P1
+    {"alpha": 1.0, "v": 130.0, "load_factor": 2.5, "wing.twist_cp": [2.0, 3.0, 1.0]},
     {"alpha": 6.0, "v": 80.0, "load_factor": 1.0, "wing.twist_cp": [3.0, 0.5, 2.0]},
 ]
 
